@@ -282,8 +282,8 @@ LEVEL_TEXT = ("Theorem C10_ternary (all lint-clean circuits with a closed graph,
               "companion at 0 means the node has its value under every completion of the X inputs. Proved through an invariant of the "
               "sequential construction incl. uid freshness and a string lemma that helper names never equal companion names; the gate "
               "types of the gadgets are regenerated from tx.ternary on every run and proved equal to the documented ones; the input set of R "
-              "is proved to be inputs(c) + their companions. Not proved: lint_clean R (C10_ternary_lint_full) - decided per generated "
-              "case. The model is tied to "
+              "is proved to be inputs(c) + their companions and R is proved lint-clean (C10_ternary_full: no clause is left partial). "
+              "The model is tied to "
               "tx.ternary by correspondence incl. recorded set orders; the property itself is additionally decided per case by exhaustive "
               "certified simulation of all 4^|inputs| patterns in Coq.")
 LEVEL_NOTE = ("Trusted: Coq kernel + vm_compute, std++, translator skeleton for tx.ternary (names/wiring/flags/order compared textually, "
